@@ -23,7 +23,11 @@
  *     size of the chunk and every chunk is consumed (a chunk never consumed within 10 s: lost event);
  *   - no event handler invocation after the source's cancel handler ran.
  *
- * usage: drv_mux OUT SEED PERTURB NEXEC [CFGMASK]      CFGMASK bit0 RW, bit1 RR, bit2 RRW (default 1)
+ * usage: drv_mux OUT SEED PERTURB NEXEC [CFGMASK] [FLAGS]
+ *   CFGMASK bit0 RW, bit1 RR, bit2 RRW, bit3 RAW (directed: the READ source registers after the WRITE source, whose
+ *           direction is armed at that moment) (default 1)
+ *   FLAGS   bit0: readers first - a READ source is only ever registered while the descriptor has no WRITE source
+ *           (activation order, late activation and re-creation are restricted accordingly)
  * exit: 0 ok, 2 an oracle failed, 70 crash inside the library, 71 hang. */
 #include "internal.h"
 #include <pthread.h>
@@ -37,8 +41,11 @@
 
 enum { U_R1, U_R2, U_W1, U_N };
 static const char *UNAME[] = { "r1", "r2", "w1" };
-enum { CFG_RW, CFG_RR, CFG_RRW, CFG_N };
-static const char *CFGNAME[] = { "RW", "RR", "RRW" };
+/* RAW: directed "reader after writer": w1 is registered with its direction armed (the send buffer is full, so no
+ * EPOLLOUT event disarms it), THEN r1 registers */
+enum { CFG_RW, CFG_RR, CFG_RRW, CFG_RAW, CFG_N };
+static const char *CFGNAME[] = { "RW", "RR", "RRW", "RAW" };
+#define F_SAFEORDER 1   /* never register a READ source on a descriptor that already has a WRITE source */
 enum { W_IDLE, W_SMALL, W_FILL };
 
 struct exec_s;
@@ -53,7 +60,7 @@ typedef struct slot_s {
 } slot_t;
 
 typedef struct exec_s {
-	int id, cfg, pipe, ack, wmode, hup_end, nchunks;
+	int id, cfg, pipe, ack, wmode, hup_end, nchunks, ack_timeout_ms;
 	int a, b;                       /* our end (monitored), the peer's end */
 	slot_t *slot[U_N];
 	_Atomic int eof, stop, writes, acked, chunk_len, drained_total, written_total, peer_w_done, lost;
@@ -61,7 +68,7 @@ typedef struct exec_s {
 } exec_t;
 
 static uint64_t g_seed;
-static int g_nexec = 10, g_cfgmask = 1;
+static int g_nexec = 10, g_cfgmask = 1, g_flags = 0;
 static _Atomic int g_fail;
 static _Atomic long g_st_exec[CFG_N], g_st_r1, g_st_w1, g_st_r2, g_st_susp, g_st_midcancel, g_st_recreate, g_st_hup, g_st_late, g_st_fill;
 
@@ -238,7 +245,7 @@ static void *peer_writer(void *arg)
 			int waited = 0;
 			while (atomic_load(&x->acked) < i + 1 && !atomic_load(&x->stop)) {
 				msleep_us(100);
-				if (++waited > 100000) { atomic_store(&x->lost, 1); break; }
+				if (++waited > x->ack_timeout_ms * 10) { atomic_store(&x->lost, 1); break; }
 			}
 			if (atomic_load(&x->lost)) break;
 		}
@@ -296,6 +303,14 @@ static void activate(slot_t *s)
 	dispatch_activate(s->ds);
 	atomic_store(&s->activated, 1);
 }
+/* the registration happens on the manager thread some time after dispatch_activate returned */
+static void wait_registered(slot_t *s)
+{
+	for (int i = 0; i < 20000; i++) {
+		if (*(volatile dispatch_unote_state_t *)&s->dr->du_state != 0) return;
+		msleep_us(100);
+	}
+}
 static void cancel(slot_t *s)
 {
 	vrt_api("Cancel", s->obj, 0, 0, 0);
@@ -322,11 +337,13 @@ static void run_one(int id)
 	exec_t *x = calloc(1, sizeof(*x));
 	vrt_pause(1);
 	x->id = id; x->cfg = pick_cfg();
+	int raw = x->cfg == CFG_RAW, safe = g_flags & F_SAFEORDER;
 	x->pipe = (x->cfg == CFG_RR) && (vrt_rand() % 3 == 0);
-	x->ack = (vrt_rand() % 10) < 6;
-	x->wmode = (int)(vrt_rand() % 3);
-	x->hup_end = (vrt_rand() % 5) == 0;
-	x->nchunks = 6 + (int)(vrt_rand() % 12);
+	x->ack = raw || (vrt_rand() % 10) < 6;
+	x->wmode = raw ? W_IDLE : (int)(vrt_rand() % 3);
+	x->hup_end = !raw && (vrt_rand() % 5) == 0;
+	x->nchunks = raw ? 3 : 6 + (int)(vrt_rand() % 12);
+	x->ack_timeout_ms = raw ? 1500 : 10000;
 	int sv[2];
 	if (x->pipe) { if (pipe(sv) != 0) { perror("pipe"); exit(3); } x->a = sv[0]; x->b = sv[1]; }
 	else {
@@ -335,33 +352,55 @@ static void run_one(int id)
 		int sz = 4096; setsockopt(x->a, SOL_SOCKET, SO_SNDBUF, &sz, sizeof(sz));
 	}
 	fcntl(x->a, F_SETFL, fcntl(x->a, F_GETFL) | O_NONBLOCK);
-	int have[U_N] = { 1, x->cfg != CFG_RW, x->cfg != CFG_RR };
+	int have[U_N] = { 1, x->cfg == CFG_RR || x->cfg == CFG_RRW, x->cfg != CFG_RR };
 	for (int i = 0; i < U_N; i++) if (have[i]) make_slot(x, i, 0);
 	atomic_store(&g_cur_fd, x->a);
 	atomic_fetch_add(&g_st_exec[x->cfg], 1);
 	vrt_pause(0);
 	vrt_mark("Reset", id, x->cfg | (x->pipe << 4) | (x->ack << 5) | (x->wmode << 6) | (x->hup_end << 8), x->a);
 
-	/* activation: random order; one source possibly late (after the others have been through some events) */
-	int order[U_N], n = 0;
-	for (int i = 0; i < U_N; i++) if (have[i]) order[n++] = i;
-	for (int i = n - 1; i > 0; i--) { int j = (int)(vrt_rand() % (unsigned)(i + 1)); int t = order[i]; order[i] = order[j]; order[j] = t; }
-	int late = (n > 1 && (vrt_rand() % 2)) ? order[n - 1] : -1;
-	if (vrt_rand() % 4 == 0) {     /* an event is already due when the first source registers */
-		atomic_store(&x->chunk_len, 1); atomic_fetch_add(&x->writes, 1);
-		vrt_api("PeerWrite", -1, 1, -1, 0);
-		(void)!write(x->b, "p", 1); atomic_fetch_add(&x->written_total, 1);
-		x->ack = 0;               /* the chunk protocol starts with one byte already there */
+	int order[U_N], n = 0, late = -1;
+	if (raw) {
+		/* directed: the send buffer is full, so the WRITE source registers and STAYS armed (no EPOLLOUT event);
+		 * then the READ source registers on the same muxnote; then the peer sends chunks (acknowledged, 1.5 s each)
+		 * and, 100 ms later, starts to drain what we sent */
+		char buf[1024]; memset(buf, 'f', sizeof(buf));
+		for (int i = 0; i < 4096; i++) { ssize_t k = write(x->a, buf, sizeof(buf)); if (k < 0 && errno != EINTR) break; }
+		activate(x->slot[U_W1]); wait_registered(x->slot[U_W1]);
+		msleep_us(2000);
+		activate(x->slot[U_R1]); wait_registered(x->slot[U_R1]);
+		n = 2;
+	} else {
+		/* activation: random order (readers first when asked to); one source possibly late (after the others have
+		 * been through some events) */
+		for (int i = 0; i < U_N; i++) if (have[i]) order[n++] = i;
+		for (int i = n - 1; i > 0; i--) { int j = (int)(vrt_rand() % (unsigned)(i + 1)); int t = order[i]; order[i] = order[j]; order[j] = t; }
+		if (safe) {      /* stable: readers before the writer */
+			for (int i = 0; i < n; i++) for (int j = i + 1; j < n; j++) if (order[i] == U_W1) { int t = order[i]; order[i] = order[j]; order[j] = t; }
+		}
+		late = (n > 1 && (vrt_rand() % 2)) ? order[n - 1] : -1;
+		if (vrt_rand() % 4 == 0) {     /* an event is already due when the first source registers */
+			atomic_store(&x->chunk_len, 1); atomic_fetch_add(&x->writes, 1);
+			vrt_api("PeerWrite", -1, 1, -1, 0);
+			(void)!write(x->b, "p", 1); atomic_fetch_add(&x->written_total, 1);
+			x->ack = 0;               /* the chunk protocol starts with one byte already there */
+		}
+		for (int i = 0; i < n; i++) if (order[i] != late) {
+			activate(x->slot[order[i]]);
+			if (safe) wait_registered(x->slot[order[i]]);
+			msleep_us((unsigned)(vrt_rand() % 400));
+		}
 	}
-	for (int i = 0; i < n; i++) if (order[i] != late) { activate(x->slot[order[i]]); msleep_us((unsigned)(vrt_rand() % 400)); }
 	pthread_t tw, tr;
 	pthread_create(&tw, NULL, peer_writer, x);
 	int have_reader_thread = !x->pipe;
+	if (raw) msleep_us(100000);
 	if (have_reader_thread) pthread_create(&tr, NULL, peer_reader, x);
 	uint64_t t_late = 300 + vrt_rand() % 6000, t0 = _dispatch_uptime();
-	int midcancel = (n > 1 && vrt_rand() % 2) ? (have[U_W1] && (vrt_rand() % 3) ? U_W1 : (have[U_R2] ? U_R2 : U_W1)) : -1;
+	int midcancel = (!raw && n > 1 && vrt_rand() % 2) ? (have[U_W1] && (vrt_rand() % 3) ? U_W1 : (have[U_R2] ? U_R2 : U_W1)) : -1;
 	int midcancel_at = 1 + (int)(vrt_rand() % (unsigned)x->nchunks);
 	int recreate = (int)(vrt_rand() % 2);
+	if (safe && midcancel == U_R2 && have[U_W1]) recreate = 0;      /* a new reader would join a descriptor that has a writer */
 	while (!atomic_load(&x->peer_w_done)) {
 		msleep_us(200 + (unsigned)(vrt_rand() % 1500));
 		uint64_t el = (_dispatch_uptime() - t0) / 1000;
@@ -398,7 +437,7 @@ static void run_one(int id)
 	}
 	pthread_join(tw, NULL);
 	if (late >= 0) { activate(x->slot[late]); late = -1; }
-	if (atomic_load(&x->lost)) oracle_fail(x, "r1", "a chunk written by the peer was never consumed by the read handler within 10 s (lost event)", atomic_load(&x->writes), atomic_load(&x->acked));
+	if (atomic_load(&x->lost)) oracle_fail(x, "r1", "a chunk written by the peer was never consumed by the read handler (lost event)", atomic_load(&x->writes), x->ack_timeout_ms);
 	/* let r1 consume what is still there, and let a trailing (bogus) invocation show itself */
 	for (int i = 0; i < 2000 && !atomic_load(&x->lost) && atomic_load(&x->drained_total) < atomic_load(&x->written_total); i++) msleep_us(500);
 	msleep_us(1000 + (unsigned)(vrt_rand() % 3000));
@@ -459,7 +498,7 @@ static void proj(FILE *f, const vrt_rec_t *r)
 	case VRT_MARK:
 		if (!strcmp(r->name, "Reset")) {
 			p_exec = (int)r->a; p_fd = (int)r->c;
-			fprintf(f, "{\"e\":\"Reset\",\"x\":%ld,\"cfg\":\"%s\",\"fdk\":\"%s\",\"ack\":%s,\"wmode\":%ld,\"hup\":%s}\n", r->a, CFGNAME[r->b & 15],
+			fprintf(f, "{\"e\":\"Reset\",\"x\":%ld,\"cfg\":\"%s\",\"fdk\":\"%s\",\"ack\":%s,\"wmode\":%ld,\"hup\":%s}\n", r->a, CFGNAME[r->b & 7],
 					(r->b & 16) ? "pipe" : "socket", (r->b & 32) ? "true" : "false", (r->b >> 6) & 3, (r->b & 256) ? "true" : "false");
 		}
 		break;
@@ -500,7 +539,7 @@ static void proj(FILE *f, const vrt_rec_t *r)
 			fprintf(f, "{\"e\":\"DU\",\"t\":%d,\"u\":\"%s\",\"reg\":%s,\"armed\":%s,\"ndel\":%s,\"f\":\"%s\"}\n", r->tid, u, v != 0 ? "true" : "false",
 					(v & DU_STATE_ARMED) ? "true" : "false", (v & DU_STATE_NEEDS_DELETE) ? "true" : "false", r->site->dvs_func);
 		} else if (r->cls == 4) {
-			if (!strcmp(op, "load")) break;
+			if (!strcmp(op, "load") || !strcmp(op, "giveup")) break;    /* (a give-up is attributed to the word loaded last) */
 			/* READ / WRITE sources keep ~data in ds_pending_data (0 = nothing pending) */
 			if (!strcmp(op, "store"))
 				fprintf(f, "{\"e\":\"PD\",\"t\":%d,\"u\":\"%s\",\"op\":\"store\",\"set\":%s,\"val\":%ld,\"f\":\"%s\"}\n", r->tid, u, r->newv ? "true" : "false",
@@ -529,6 +568,7 @@ int main(int argc, char **argv)
 	int perturb = argc > 3 ? atoi(argv[3]) : 2;
 	if (argc > 4) g_nexec = atoi(argv[4]);
 	if (argc > 5) g_cfgmask = (int)strtol(argv[5], NULL, 0);
+	if (argc > 6) g_flags = (int)strtol(argv[6], NULL, 0);
 	signal(SIGPIPE, SIG_IGN);
 	for (int k = 0; k < MAXPTR; k++) g_ptrs[k].fd = -1;
 	vrt_init(out, g_seed, perturb);
@@ -540,9 +580,9 @@ int main(int argc, char **argv)
 	(void)vrt_tid();
 	for (int e = 0; e < g_nexec && !atomic_load(&g_fail); e++) run_one(e);
 	vrt_dump();
-	fprintf(stderr, "records=%zu overflow=%d threads=%d exec_RW=%ld exec_RR=%ld exec_RRW=%ld r1_invocations=%ld r2_invocations=%ld w1_invocations=%ld "
+	fprintf(stderr, "records=%zu overflow=%d threads=%d exec_RW=%ld exec_RR=%ld exec_RRW=%ld exec_RAW=%ld r1_invocations=%ld r2_invocations=%ld w1_invocations=%ld "
 			"suspensions=%ld mid_cancels=%ld recreated=%ld hangups=%ld late_activations=%ld buffer_fills=%ld\n",
-			vrt_count(), vrt_overflowed(), vrt_nthreads(), atomic_load(&g_st_exec[0]), atomic_load(&g_st_exec[1]), atomic_load(&g_st_exec[2]),
+			vrt_count(), vrt_overflowed(), vrt_nthreads(), atomic_load(&g_st_exec[0]), atomic_load(&g_st_exec[1]), atomic_load(&g_st_exec[2]), atomic_load(&g_st_exec[3]),
 			atomic_load(&g_st_r1), atomic_load(&g_st_r2), atomic_load(&g_st_w1), atomic_load(&g_st_susp), atomic_load(&g_st_midcancel),
 			atomic_load(&g_st_recreate), atomic_load(&g_st_hup), atomic_load(&g_st_late), atomic_load(&g_st_fill));
 	return atomic_load(&g_fail) ? 2 : 0;
